@@ -189,6 +189,8 @@ where
   pub(crate) fn drain_read_notifications(&self) {
     let rec = self.notification_receiver.lock().unwrap();
     while rec.try_recv().is_ok() {}
+    #[cfg(rustdds_verif)]
+    crate::verif::hooks::yield_point(20);
     self.event_source.drain();
   }
 
@@ -608,7 +610,11 @@ where
         //   error!("Setting waker for {:?}", self.simple_datareader.topic().name());
         // }
         // // DEBUG
+        #[cfg(rustdds_verif)]
+        crate::verif::hooks::yield_point(22);
         self.simple_datareader.set_waker(Some(cx.waker().clone()));
+        #[cfg(rustdds_verif)]
+        crate::verif::hooks::yield_point(23);
         match self
           .simple_datareader
           .try_take_one_with(self.decoder.clone())
